@@ -11,6 +11,11 @@ from .symex_eval import EvalMixin, SliceVal, MSet, sym_min, sym_max, sym_abs, _z
 from .symex_stmt import StmtMixin, LoopSpec, NS
 
 
+def _dc_fields(c):
+    import ast as _ast
+    return [st.target.id for st in c.node.body if isinstance(st, _ast.AnnAssign) and isinstance(st.target, _ast.Name)]
+
+
 class SuperProxy:
     def __init__(self, obj, cls):
         self.obj = obj
@@ -341,6 +346,12 @@ class Engine(StmtMixin, EvalMixin, Interp):
                 return ""
             return interp.to_str(args[0])
 
+        @reg("map")
+        def _map(interp, args, kw):
+            fn = args[0]
+            lists = [interp.iterate_concrete(a) for a in args[1:]]
+            return SymIter([interp.call(fn, list(t), {}) for t in zip(*lists)], 0)
+
         @reg("repr")
         def _repr(interp, args, kw):
             v = interp.resolve(args[0])
@@ -419,6 +430,8 @@ class Engine(StmtMixin, EvalMixin, Interp):
                                                             "count")
         X["itertools.zip_longest"] = self.ext_zip_longest
         X["warnings.warn"] = lambda interp, a, k: None
+        X["dataclasses.astuple"] = lambda interp, a, k: tuple(
+            a[0].attrs[f] for c in reversed(a[0].cls.mro(interp.repo)) for f in _dc_fields(c))
         X["functools.lru_cache"] = lambda interp, a, k: BuiltinFn("identity", lambda i2, a2, k2: a2[0])
 
     def clamp0(self, expr):
@@ -628,7 +641,13 @@ class Engine(StmtMixin, EvalMixin, Interp):
                     return v.join(items)
                 if any(not isinstance(i, (str, Opaque)) for i in items):
                     raise PyExc("TypeError", "sequence item: expected str instance")
-                return Opaque("str")
+                from .symex_eval import make_text
+                parts = []
+                for k, it in enumerate(items):
+                    if k:
+                        parts.append(v)
+                    parts.append(it)
+                return make_text(parts)
             if all(not is_sym(a) for a in args):
                 try:
                     r = getattr(v, name)(*args, **kwargs)
